@@ -8,6 +8,7 @@ package vm
 // and the call returns the error "execution interrupted".
 
 import (
+	"context"
 	"time"
 
 	"github.com/mattn/anko/env"
@@ -302,3 +303,59 @@ func ZZ_C02_host_calls_after_cancellation() {
 type zzProbeRec struct{}
 
 func (*zzProbeRec) Get() int64 { zz.Probe(60); return 0 }
+
+// ZZ_C02_racing_senders: several senders on one buffered channel and no
+// receiver; whichever of them finds the buffer full blocks - the cancellation
+// must end every one of them, under every interleaving of the senders at
+// channel-operation granularity (a send that checks for room and then sends in
+// two steps blocks outside any wait on the context when another sender takes
+// the slot in between).  The main script is one of the senders: if it cannot
+// be interrupted, ExecuteContext never returns (engine: deadlock; native
+// replay: the stress variant below times out).
+func ZZ_C02_racing_senders() { zzRacingSenders(1) }
+
+// (thorough: three senders)
+func ZZ_C02_racing_senders_3() { zzRacingSenders(2) }
+
+func zzRacingSenders(others int) {
+	capacity := []string{"1", "2"}[zz.Choose(2)]
+	src := "ch = make(chan int64, " + capacity + ")\n"
+	for i := 0; i < others; i++ {
+		src += "go func() { for { ch <- 1 } }()\n"
+	}
+	src += "for { ch <- 2 }"
+	ctx := zzNewCtx(1000000)
+	e := env.NewEnv()
+	id := "cap" + capacity + "/" + []string{"", "2-senders", "3-senders"}[others]
+	if !zz.Symbolic() {
+		// native: real goroutines race; cancel after a moment, many rounds
+		for round := 0; round < 200; round++ {
+			rctx, cancel := context.WithTimeout(context.Background(), 2*time.Millisecond)
+			done := make(chan error, 1)
+			go func() {
+				_, err := ExecuteContext(rctx, env.NewEnv(), &Options{Debug: false}, "ch = make(chan int64, 1)\n"+
+					"go func() { for { ch <- 1 } }()\ngo func() { for { ch <- 1 } }()\ngo func() { for { ch <- 1 } }()\nfor { ch <- 2 }")
+				done <- err
+			}()
+			select {
+			case <-done:
+			case <-time.After(3 * time.Second):
+				zz.Assert(false, "terminates.C02.racing-senders/"+id)
+				cancel()
+				return
+			}
+			cancel()
+		}
+		return
+	}
+	go ctx.cancel()
+	zz.Budget(3000000)
+	zz.UnwindIsViolation("terminates.C02.racing-senders/" + id)
+	zz.DeadlockIsViolation("terminates.C02.racing-senders/" + id)
+	zz.MaxDecisions(4000)
+	zz.SchedChannelsOnly(true)
+	zz.SchedExplore(true, 3)
+	_, err := ExecuteContext(ctx, e, &Options{Debug: false}, src)
+	zz.SchedExplore(false, 0)
+	zz.Assert(err != nil && err.Error() == ErrInterrupt.Error(), "C02.returns-execution-interrupted/racing-senders/"+id)
+}
